@@ -287,6 +287,17 @@ impl<P: Prog, const OUTER: usize> Scenario for Runner<P, OUTER> {
         }
         all
     }
+    fn others_ops() -> u8 {
+        let mut n = 0;
+        let mut a = 0;
+        while a < P::NACT {
+            if a != OUTER {
+                n += P::LEN[a];
+            }
+            a += 1;
+        }
+        n
+    }
     fn stuck() {
         P::stuck();
         kani::assume(false);
